@@ -756,7 +756,8 @@ func (c *CheckCtx) tryReplay(f *Failure, b *strings.Builder) {
 		fmt.Fprintf(b, "replay: no run-time oracle for obligation kind %s\n", kind)
 		return
 	}
-	base := tr.prelude(true) + fmt.Sprintf("(assert (and %s (not %s)))\n", o.Guard, o.Goal)
+	tr.indexObls()
+	base := tr.preludeFor(true, o) + fmt.Sprintf("(assert (and %s (not %s)))\n", o.Guard, o.Goal)
 	// prefer small models
 	var hints []string
 	for i, p := range root.Params {
